@@ -21,7 +21,9 @@ class C03:
     ID = "C03"
     RULE = ("random circuit trees (heralds on arbitrary input/output modes carrying 0-2 photons, 0-4 loss elements, nested heralded "
             "sub-circuits) x Fock inputs/outputs (<= 3 photons, bunched, vacuum, single states and lists, outputs=None = whole basis) "
-            "plus a malformed stream (wrong length, negative entries, unequal photon numbers among inputs / inputs+outputs). "
+            "plus a malformed stream (wrong length, negative entries, unequal photon numbers among inputs / inputs+outputs); single-mode "
+            "circuits; histories on one Simulator (created before the circuit is completed, used for other requests first, rejected "
+            "requests first, re-pointed with the circuit setter), shared State objects, single State / list forms, result[in, out]. "
             "Non-trivial = >= 2 photons in total and a circuit with >= 2 components; distinct = distinct JSON")
     COQ_TARGETS = ["theories/Exec/RunFock.vo"]
     CHUNK = 25
@@ -56,7 +58,34 @@ class C03:
             # early: the Simulator is created as soon as the circuit object exists, the rest of the program
             # (components, heralds, additions) then modifies the circuit in place and simulate() runs last -
             # the amplitudes must be those of the circuit as it is when simulate() is called
-            cases.append(dict(kind="sim", prog=prog, cid=cid, inputs=inputs, outputs=outputs, early=(i % 3 == 1)))
+            case = dict(kind="sim", prog=prog, cid=cid, inputs=inputs, outputs=outputs, early=(i % 3 == 1))
+            # histories on ONE Simulator object (the observed call is always the last one):
+            #   twice  - the object has already answered other requests (another photon number with outputs=None,
+            #            the same first input with one explicit output; with `early` also once before the circuit
+            #            was completed): nothing computed on first use may be reused for a different request
+            #   exc    - two rejected requests (wrong length, unequal photon numbers) come first
+            #   setter - the object was created for another circuit, used, and re-pointed with `sim.circuit = c`
+            case["hist"] = [None, "twice", "exc", "setter", "twice", None, "twice"][i % 7]
+            other = photons - 1 if photons >= 1 else 1
+            case["decoy"] = [fg.gen_state(rng, nin, other), fg.gen_state(rng, nin, photons)]
+            # API forms: a single output State instead of a list, a one-element list instead of a single input State
+            case["bare_out"] = rng.random() < 0.5
+            case["list_in"] = rng.random() < 0.3
+            cases.append(case)
+        # single-mode circuits (never the final circuit of a generated tree): phase and loss on one mode,
+        # occupations 0..3, all histories
+        for j in range(12 if tier == "quick" else 300):
+            prog = [["new", 0, 1]]
+            for _ in range(rng.randint(0, 3)):
+                if rng.random() < 0.6:
+                    prog.append(["ps", 0, 0, rng.randrange(len(cg.PHV)), cg.gen_value_loss(rng, 0.4)])
+                else:
+                    prog.append(["loss", 0, 0, cg.gen_value_loss(rng, 1.0)])
+            k = rng.choice([0, 1, 2, 3])
+            cases.append(dict(kind="sim", prog=prog, cid=0, inputs=[[k]] * rng.choice([1, 2]),
+                              outputs=rng.choice([None, [[k]], [[k], [k]]]), early=(j % 3 == 1),
+                              hist=[None, "twice", "exc", "setter"][j % 4], decoy=[[k + 1], [k]],
+                              bare_out=rng.random() < 0.5, list_in=rng.random() < 0.3))
         return cases
 
     def _circuit(self, c):
@@ -65,24 +94,79 @@ class C03:
 
     def impl(self, c):
         holder = {}
+        hist = c.get("hist")
 
         def on_step(pool, op, out, before):
             if c.get("early") and "sim" not in holder and op[0] in ("new", "unitary", "copy", "plus") and op[1] == c["cid"] \
                     and c["cid"] in pool:
                 holder["sim"] = emulator.Simulator(pool[c["cid"]])
+                if hist == "twice":
+                    # first use while the circuit is still incomplete: whatever this call computed belongs to
+                    # the circuit as it was then
+                    try:
+                        holder["sim"].simulate(lw.State([0] * pool[c["cid"]].input_modes))
+                    except Exception:  # noqa: BLE001
+                        pass
 
         _, pool = cg.run_impl(c["prog"], on_step=on_step, want=lambda op: [])
         circ = pool[c["cid"]]
-        ins = [lw.State(list(s)) for s in c["inputs"]]
-        outs = None if c["outputs"] is None else [lw.State(list(s)) for s in c["outputs"]]
+        objs = {}      # equal states are ONE State object, used in several positions and in several calls
+
+        def st(s):
+            return objs.setdefault(tuple(s), lw.State(list(s)))
+
+        ins = [st(s) for s in c["inputs"]]
+        outs = None if c["outputs"] is None else [st(s) for s in c["outputs"]]
+        if outs is not None and len(outs) == 1 and c.get("bare_out"):
+            outs = outs[0]
+        extra = {}
+
+        def quiet(fn):
+            try:
+                fn()
+                return "ok"
+            except Exception as e:  # noqa: BLE001
+                return type(e).__name__
 
         def run():
-            sim = holder.get("sim") or emulator.Simulator(circ)
-            res = sim.simulate(ins if len(ins) != 1 else ins[0], outs)
+            sim = holder.get("sim")
+            if sim is None:
+                if hist == "setter":
+                    other = lw.Circuit(max(1, circ.input_modes + 1))
+                    if other.n_modes >= 2:
+                        other.bs(0)
+                    sim = emulator.Simulator(other)
+                    quiet(lambda: sim.simulate(lw.State([1] + [0] * (other.n_modes - 1))))
+                    sim.circuit = circ
+                else:
+                    sim = emulator.Simulator(circ)
+            dec = c.get("decoy")
+            if hist == "twice" and dec:
+                extra["pre"] = [quiet(lambda: sim.simulate(st(dec[0]))),
+                                quiet(lambda: sim.simulate(ins[0], [st(dec[1])]))]
+            elif hist == "exc":
+                extra["pre"] = [quiet(lambda: sim.simulate(lw.State(list(c["inputs"][0]) + [0]))),
+                                quiet(lambda: sim.simulate([ins[0], lw.State([sum(c["inputs"][0]) + 1] + [0] * (len(c["inputs"][0]) - 1))])),
+                                quiet(lambda: sim.simulate([ins[0], lw.State([sum(c["inputs"][0])] + [0] * len(c["inputs"][0]))]))]
+            res = sim.simulate(ins if (len(ins) != 1 or c.get("list_in")) else ins[0], outs)
             arr = res.array
+            # the [input, output] form of the result
+            try:
+                extra["idx"] = {"ok": [[(lambda z: [float(z.real), float(z.imag)])(complex(res[a, b])) for b in res.outputs]
+                                       for a in res.inputs]}
+            except Exception as e:  # noqa: BLE001
+                extra["idx"] = {"err": type(e).__name__}
             return [[list(s) for s in res.outputs], [[[float(x.real), float(x.imag)] for x in row] for row in arr]]
 
-        return core.guarded(run)
+        obs = core.guarded(run)
+        obs.update(extra)
+        return obs
+
+    def compare(self, c, a, b):
+        """the model predicts the observed (last) call; what the history and the [in, out] lookups returned is judged by the oracle"""
+        if isinstance(a, dict):
+            a = {k: v for k, v in a.items() if k in ("ok", "err")}
+        return core.approx_equal(a, b)
 
     def coq_header(self):
         return cg.COQ_HEADER + "From LW Require Import Model.Fock Exec.RunFock.\n"
@@ -140,6 +224,27 @@ class C03:
                 nrm = sum(arr[i][j][0] ** 2 + arr[i][j][1] ** 2 for j in range(len(used_outs)))
                 if abs(nrm - 1) > 1e-9:
                     return f"lossless amplitudes from {s} do not form a unit vector (norm^2 = {nrm})"
+        # result[input, output] is the same amplitude
+        idx = obs.get("idx")
+        if idx is not None:
+            if "ok" not in idx:
+                return f"result[input, output] raised {idx['err']}"
+            if len(idx["ok"]) != len(ins) or any(len(r) != len(used_outs) for r in idx["ok"]):
+                return "result[input, output] does not cover the requested inputs/outputs"
+            for i, s in enumerate(ins):
+                fi = fg.full_state(s, hin, loss)
+                for j, t in enumerate(used_outs):
+                    ref = fg.amplitude_ref(U, fi, fg.full_state(t, hout, loss))
+                    got = complex(*idx["ok"][i][j])
+                    if not abs(ref - got) <= 1e-9:
+                        return f"result[{s}, {t}] is {got}, permanent formula gives {ref}"
+        # the requests that came before the observed one on the same object: valid ones are answered, invalid ones rejected
+        pre = obs.get("pre")
+        if pre is not None:
+            if c.get("hist") == "twice" and pre != ["ok", "ok"]:
+                return f"valid requests preceding the observed one raised: {pre}"
+            if c.get("hist") == "exc" and "ok" in pre:
+                return f"invalid requests (wrong length, unequal photon numbers) preceding the observed one were computed: {pre}"
         # non-integer occupations must be rejected
         try:
             emulator.Simulator(circ).simulate(lw.State([0.5] + [0] * (nin - 1)))
@@ -149,6 +254,18 @@ class C03:
         except Exception as e:  # noqa: BLE001
             if nin > 0:
                 return f"non-integer occupation raised {type(e).__name__}, expected TypeError"
+        # ... also in an output state, and in a later position of the input list
+        if nin > 0:
+            good = lw.State(list(ins[0]))
+            frac = list(ins[0])
+            frac[-1] = frac[-1] + 0.5
+            for what, call in (("output", lambda: emulator.Simulator(circ).simulate(good, [lw.State(list(frac))])),
+                               ("second input", lambda: emulator.Simulator(circ).simulate([good, lw.State(list(frac))]))):
+                try:
+                    call()
+                    return f"non-integer occupation {frac} accepted as {what}"
+                except Exception:  # noqa: BLE001
+                    pass
         return None
 
     def nontrivial(self, c, obs):
